@@ -180,7 +180,7 @@ CopyOne(fs, own, snap, x, s, t, co) == LET q == Rebase(x, s, t) n == snap[x] IN
                                                       ELSE [NFile(n.d, own) EXCEPT !.mode = CopyMode(n, co.fm, FileType)]), e |-> "-"])
    ELSE (IF Exists(fs, q) THEN (IF IsLink(fs, q) THEN [fs |-> fs, e |-> "-"] ELSE [fs |-> fs, e |-> "*"])
          ELSE [fs |-> Put(fs, q, NLink(n.t, IF IsPrefix(t, n.t) \/ TK(snap, n.t) # n.tk THEN "?" ELSE LinkTK(fs, n.t), own)), e |-> "-"])   \* target inside the destination being built, or stale: order dependent
-RECURSIVE CopySeq(_, _, _, _, _, _, _)
+RECURSIVE CopySeq(_, _, _, _, _, _, _), Op_copy_b(_, _, _, _, _)
 CopySeq(fs, own, snap, todo, s, t, co) == IF todo = <<>> THEN [fs |-> fs, e |-> "-"] ELSE
    LET r == CopyOne(fs, own, snap, Head(todo), s, t, co) IN IF r.e # "-" THEN r ELSE CopySeq(r.fs, own, snap, Tail(todo), s, t, co)
 RECURSIVE SortByLen(_)
@@ -189,7 +189,10 @@ Op_copy_b(st, own, s, d, co) == LET fs == st.fs IN
   IF s = d THEN R(st, ROk(Unit))
   ELSE IF ~Exists(fs, s) THEN R(st, RErr("Path::DoesNotExist"))
   ELSE IF s = Root THEN [st |-> st, res |-> RAny, alt |-> {}, partial |-> TRUE, paired |-> FALSE]   \* D9
-  ELSE IF co.follow THEN [st |-> st, res |-> RAny, alt |-> {}, partial |-> TRUE, paired |-> FALSE]  \* follow: judged by CopyFollowOK below
+  ELSE IF co.follow /\ IsLink(fs, s) /\ Exists(fs, fs[s].t) /\ ~IsLink(fs, fs[s].t) /\ \A x \in Sub(fs, fs[s].t) : ~IsLink(fs, x)
+       THEN Op_copy_b(st, own, fs[s].t, d, [co EXCEPT !.follow = FALSE])                              \* follow: the source link stands for its target
+  ELSE IF co.follow /\ \E x \in Sub(fs, s) : IsLink(fs, x)
+       THEN [st |-> st, res |-> RAny, alt |-> {}, partial |-> TRUE, paired |-> FALSE]                 \* links below a followed source: placement not settled (A24, open)
   ELSE LET t == IF IsDir(fs, d) THEN Append(d, Base(s)) ELSE d
            pmode == IF co.dm # 0 THEN DirType + Perm(co.dm) ELSE fs[Parent(s)].mode
            pre == IF Len(t) > 0 THEN MkdirWalk(fs, CopyOwn, Parent(t), 1, 0) ELSE [fs |-> fs, e |-> "-"]     \* "creates destination directories as needed" (mode: wildcard)
